@@ -333,6 +333,16 @@ reg(
   "{damper, invdiscrete} with Euler not judged for qfrc_inverse (MuJoCo is self-inconsistent there).",
 )
 
+reg(
+  "C29",
+  "property-based model-based testing (Hypothesis-generated scenes and perturbation histories under harness-owned serial thread orders): lock-step MuJoCo C oracle with per-step resynchronisation plus sleep invariants on MJWarp alone",
+  "Piles of free spheres/boxes/capsules and short chains on a plane, pendulum arms (AUTO_NEVER when actuated), connect/weld/joint equalities, limited spatial/fixed tendons and a mocap box, over histories of up to 160 (quick) / 450 "
+  "(thorough) steps with force/velocity pokes, drops, shoves, mocap moves, eq_active toggles and ctrl, 1-2 worlds, ascending/descending/hashed/per-kernel task orders: every step compares the tree_asleep pattern, countdowns, cycle "
+  "partition, tree_awake/body_awake and the awake contact-pair set with MuJoCo, and checks frozen qpos/qvel of sleeping trees, wake causes (force, velocity, contact, equality, tendon limit) and cycle validity; ten deterministic templates guarantee each wake cause per run.",
+  "Only the automatic sleep policies (never/allowed/init are rejected); tendon equalities and RK4 excluded; serial task orders only; differences exactly explained by evaluating mj_sleep on the post-step velocity are attributed to the "
+  "KNOWN-FINDING lockstep:sleep-after-integrator; islands whose contacts differ from MuJoCo also without sleeping, or that sit on a tie, are not judged at that step (counted).",
+)
+
 NOT_APPLICABLE = {}
 
 
